@@ -31,10 +31,12 @@ type Obligation struct {
 }
 
 type frameItem struct {
-	kind   string // obj range everything region
-	ref    string
-	lo, hi string
-	text   string
+	kind     string // obj range everything region
+	ref      string
+	lo, hi   string
+	text     string
+	otype    types.Type // static type of the object written (struct / slice / map), when known
+	flo, fhi int        // constant leaf range inside otype (fhi == 0: whole object)
 }
 
 type State struct {
@@ -171,6 +173,9 @@ func (vc *VC) finalize() {
 			}
 			if sl, ok := t.(*types.Slice); ok {
 				// array objects are registered under their slice type
+				if at, isArr := pf.elem.Underlying().(*types.Array); isArr && types.Identical(at.Elem(), sl.Elem()) {
+					continue
+				}
 				var offs []int
 				func() {
 					defer func() { recover() }()
@@ -461,7 +466,12 @@ func (vc *VC) tid(t types.Type) int { return vc.eng.tid(t) }
 func (vc *VC) allocObj(st *State, t types.Type, zero bool) PtrV {
 	ref := vc.def("obj", "Int", st.top)
 	st.top = vc.def("top", "Int", fmt.Sprintf("(+ %s 1)", ref))
-	vc.assume(st, fmt.Sprintf("(= (typ %s) %d)", ref, vc.tid(t)))
+	if at, ok := t.Underlying().(*types.Array); ok {
+		// array objects are typed like the backing arrays of slices of their element type
+		vc.assume(st, fmt.Sprintf("(= (typ %s) %d)", ref, vc.tid(types.NewSlice(at.Elem()))))
+	} else {
+		vc.assume(st, fmt.Sprintf("(= (typ %s) %d)", ref, vc.tid(t)))
+	}
 	if zero {
 		lay := layout(t)
 		z := make([]string, len(lay))
